@@ -99,6 +99,47 @@ Proof.
     cbv beta iota. apply Parses_ret.
 Qed.
 
+(* composed types:  A + (x, y) + B ...  operands are basic types or enums, left associative (binops) *)
+Inductive CAtom : list tok -> node -> Prop :=
+| CA_basic t : tty t = TIdentifier -> CAtom [t] (mk_type_basic t)
+| CA_enum ob ts vs cb : tty ob = TOBracket -> Args TComma EnumVar ts vs -> tty cb = TCBracket ->
+    CAtom (ob :: ts ++ [cb]) (mk_type_enum ob vs cb).
+
+(* the operands after the first one: [CTail rest l res]: with l parsed so far, rest = + b1 + b2 ... gives res *)
+Inductive CTail : list tok -> node -> node -> Prop :=
+| CT_nil l : CTail [] l l
+| CT_cons p bts b rest l res : tty p = TPlus -> CAtom bts b -> CTail rest (mk_binop p l b) res -> CTail (p :: bts ++ rest) l res.
+
+Definition catom_p : P node := alt [parse_type_basic; parse_type_enum].
+
+Lemma catom_parses ts n more : CAtom ts n -> Parses catom_p (ts ++ more) more n.
+Proof.
+  intro H. unfold catom_p. destruct H as [t Ht|ob ts vs cb Hob Ha Hcb]; cbn [app].
+  - unfold alt. apply alt_go_here. apply type_basic_ok. exact Ht.
+  - rewrite <- app_assoc. cbn [app]. unfold alt.
+    apply alt_go_skip; [apply type_basic_fails; eapply nostart_ty; [exact Hob|reflexivity]|]. intro b. apply alt_go_here.
+    unfold parse_type_enum.
+    eapply Parses_bind; [apply exp_token_ok; exact Hob|]. cbv beta.
+    eapply Parses_bind.
+    { eapply (sep_list_args _ parse_enum_variant TComma EnumVar (nostart [TEquals]) enum_variant_parses);
+        [intros t r Ht; eapply nostart_ty; [exact Ht|reflexivity]|discriminate|exact Ha| |];
+        (eapply nostart_ty; [exact Hcb|reflexivity]). }
+    cbv beta. eapply Parses_bind; [apply exp_token_ok; exact Hcb|]. cbv beta. apply Parses_ret.
+Qed.
+
+Lemma ctail_go rest l res : CTail rest l res -> forall more f, (length rest < f)%nat -> nostart [TPlus] more ->
+  Parses (binops_go f (exp_token TPlus) catom_p l) (rest ++ more) more res.
+Proof.
+  induction 1 as [l|p bts b rest l res Hp Hb Ht IH]; intros more f Hf Hm; (destruct f as [|f]; [simpl in Hf; lia|]).
+  - cbn [app]. apply binops_go_stop. eapply FailsAt_Fails. apply exp_token_nostart; [discriminate|exact Hm].
+  - cbn [app]. rewrite <- app_assoc.
+    eapply binops_go_step; [apply exp_token_ok; exact Hp|apply catom_parses; exact Hb|apply IH; [|exact Hm]].
+    simpl in Hf. rewrite app_length in Hf. lia.
+Qed.
+
+Lemma CTail_head rest l res : CTail rest l res -> rest <> [] -> exists p r, rest = p :: r /\ tty p = TPlus.
+Proof. intros H Hne. destruct H; [exfalso; apply Hne; reflexivity|eauto]. Qed.
+
 (* options of a reference type: nothing, or [ A, B ] *)
 Inductive RefOpts : list tok -> list tok -> Prop :=
 | RO_none : RefOpts [] []
@@ -279,7 +320,8 @@ Section TypeLevel.
   | TF_proc k pts ps : tty k = TProc -> ParamList pts ps -> TypeF (k :: pts) (mk_type_proc k ps)
   | TF_func k pts ps rk t : tty k = TFunc -> ParamList pts ps -> tty rk = TReturn -> tty t = TIdentifier ->
       TypeF (k :: pts ++ [rk; t]) (mk_type_func k ps t)
-  | TF_instanceof k t : tty k = TInstanceOf -> tty t = TIdentifier -> TypeF [k; t] (mk_type_instanceof k t).
+  | TF_instanceof k t : tty k = TInstanceOf -> tty t = TIdentifier -> TypeF [k; t] (mk_type_instanceof k t)
+  | TF_composed ats a rest res : CAtom ats a -> CTail rest a res -> rest <> [] -> TypeF (ats ++ rest) res.
 
   (* ---------- the alternatives of parse_type, and on which first tokens they fail ---------- *)
 
@@ -351,7 +393,8 @@ Section TypeLevel.
     intros H Hf. unfold parse_type_body.
     destruct H as [t Ht|id ob sz cb Hid Hob Hsz Hcb|ob ts vs cb Hob Ha Hcb|k ots opts id its inv Hk Ho Hid Hi|lo k hi Hlo Hk Hhi
                   |ob t cb Hob Ht Hcb|k pts parent fts fields e Hk Hp Hfl He|d t Hd Ht|a i1 n1 k ot Ha H1 Hk Hot
-                  |a i1 n1 i2 n2 k ot Ha H1 H2 Hk Hot|k pts ps Hk Hp|k pts ps rk t Hk Hp Hrk Ht|k t Hk Ht].
+                  |a i1 n1 i2 n2 k ot Ha H1 H2 Hk Hot|k pts ps Hk Hp|k pts ps rk t Hk Hp Hrk Ht|k t Hk Ht
+                  |ats a rest res Hca Hct Hne].
     - (* basic: parsed by the composed alternative *)
       cbn [app]. apply (alt_pick [parse_type_sized]).
       + repeat (apply Forall_cons || apply Forall_nil). unfold parse_type_sized.
@@ -514,6 +557,16 @@ Section TypeLevel.
       unfold parse_type_instanceof.
       eapply Parses_bind; [apply exp_token_ok; exact Hk|]. cbv beta.
       eapply Parses_bind; [apply type_basic_ok; exact Ht|]. cbv beta. apply Parses_ret.
+    - (* composed:  A + (x, y) ...  *)
+      rewrite <- app_assoc. destruct (CTail_head _ _ _ Hct Hne) as (p & r & Er & Hp).
+      apply (alt_pick [parse_type_sized]).
+      + repeat (apply Forall_cons || apply Forall_nil). destruct Hca as [t Ht|ob ts vs cb Hob Ha Hcb]; cbn [app].
+        * unfold parse_type_sized. eapply Fails_bind_r; [apply exp_token_ok; exact Ht|]. apply Fails_bind_l.
+          eapply FailsAt_Fails. apply exp_token_nostart; [discriminate|]. rewrite Er. cbn [app].
+          eapply nostart_ty; [exact Hp|reflexivity].
+        * apply sized_fails. eapply nostart_ty; [exact Hob|reflexivity].
+      + unfold parse_type_composed. fold catom_p. eapply binops_intro; [apply catom_parses; exact Hca|].
+        apply ctail_go; [exact Hct|rewrite app_length; lia|sub_nostart Hf].
   Qed.
 End TypeLevel.
 
@@ -567,6 +620,7 @@ Proof.
   - apply TF_proc; auto. eapply ParamList_mono; eauto.
   - apply TF_func; auto. eapply ParamList_mono; eauto.
   - apply TF_instanceof; auto.
+  - eapply TF_composed; eauto.
 Qed.
 
 Lemma GType_mono_S f : rel_le (GType f) (GType (S f)).
